@@ -291,6 +291,8 @@ def normalise(tree, relpath):
                         if ft in refcmp:
                             n.left, n.ops, n.comparators = n.comparators[0], [_FLIP[type(n.ops[0])]()], [n.left]
                             done.append('%s:%s `%s` read as `%s`' % (relpath, key, t, ft))
+        known = set(x[0] for x in ref[key].get('locals', []))
+        done.extend('%s:%s %s' % (relpath, key, x) for x in _inline_explaining(fn, known))
         # early-exit `if` vs if/else, as on the reference tree
         want = ref[key].get('jif', {})
         if want:
@@ -366,6 +368,67 @@ def _restyle(fn, want):
     return done
 
 
+_HEAD_SAFE_CALLS = ('len', 'isinstance', 'ord', 'int', 'oct2int')
+
+
+def _head_exprs(stmt):
+    """Expressions of `stmt` that are evaluated exactly once, first thing, when the statement is reached."""
+    if isinstance(stmt, ast.If):
+        return [stmt.test]
+    if isinstance(stmt, (ast.Assign, ast.AugAssign, ast.Return, ast.Expr, ast.Raise)):
+        return [stmt]
+    return []
+
+
+def _inline_explaining(fn, known):
+    """`t = <pure chain>` immediately followed by the one statement that uses `t` (in its head expression, with no
+    other call in it): `t` is replaced by the chain and the binding dropped.  Only for locals the reference tree does
+    not have.  Evaluating the chain one statement later is unobservable: nothing runs in between."""
+    done = []
+    for blk in _blocks(fn):
+        i = 0
+        while i + 1 < len(blk):
+            s, nxt = blk[i], blk[i + 1]
+            i += 1
+            if not (isinstance(s, ast.Assign) and len(s.targets) == 1 and isinstance(s.targets[0], ast.Name)):
+                continue
+            v = s.targets[0].id
+            if v in known or not _simple(s.value) or isinstance(s.value, (ast.Constant, ast.Name)):
+                continue
+            stores = [x for x in _own(fn) if isinstance(x, ast.Name) and x.id == v and isinstance(x.ctx, ast.Store)]
+            loads = [x for x in _own(fn) if isinstance(x, ast.Name) and x.id == v and isinstance(x.ctx, ast.Load)]
+            if len(stores) != 1 or not loads:
+                continue
+            heads = _head_exprs(nxt)
+            inside = [x for h in heads for x in ast.walk(h) if isinstance(x, ast.Name) and x.id == v and isinstance(x.ctx, ast.Load)]
+            if len(inside) != len(loads):
+                continue
+            calls = [c for h in heads for c in ast.walk(h) if isinstance(c, ast.Call)]
+            if any(not (isinstance(c.func, ast.Name) and c.func.id in _HEAD_SAFE_CALLS) for c in calls):
+                continue
+            if isinstance(nxt, (ast.Assign, ast.AugAssign)) and any(
+                    isinstance(x, ast.Name) and isinstance(x.ctx, ast.Store) and x.id in [y.id for y in ast.walk(s.value) if isinstance(y, ast.Name)]
+                    for x in ast.walk(nxt)):
+                pass    # the target is bound after the right-hand side is evaluated: still fine
+            for x in inside:
+                new = ast.parse(ast.unparse(s.value), mode='eval').body
+                for a in ('lineno', 'col_offset', 'end_lineno', 'end_col_offset'):
+                    if hasattr(x, a):
+                        setattr(new, a, getattr(x, a))
+                        for sub in ast.walk(new):
+                            if not hasattr(sub, 'lineno'):
+                                pass
+                x.__class__ = new.__class__
+                x.__dict__.clear()
+                x.__dict__.update(new.__dict__)
+            for h in heads:
+                ast.fix_missing_locations(h)
+            i -= 1
+            del blk[i]
+            done.append('explaining variable `%s = %s` inlined' % (v, _text(s.value)[:40]))
+    return done
+
+
 def _text(n):
     return ' '.join(ast.unparse(n).split())
 
@@ -376,6 +439,8 @@ def _simple(e):
         return True
     if isinstance(e, ast.Attribute):
         return _simple(e.value)
+    if isinstance(e, ast.Subscript):
+        return _simple(e.value) and isinstance(e.slice, (ast.Name, ast.Constant))
     if isinstance(e, ast.Call):
         return isinstance(e.func, ast.Name) and e.func.id == 'len' and len(e.args) == 1 and not e.keywords and _simple(e.args[0])
     if isinstance(e, ast.BinOp):
